@@ -151,24 +151,30 @@ example :
 
 /-! ## Which boxes have a background -/
 
-/-- `layout_box_backgrounds` as it is: a box other than the page box has no `Background` iff its
-`visibility` is `hidden` or its colour is transparent and it has no image; otherwise the background carries
-the colour. -/
+/-- `layout_box_backgrounds`: a box other than the page box has no `Background` iff its `visibility` is not
+`visible` or its colour is transparent and it has no image; otherwise the background carries the colour. -/
 theorem box_background_spec (s : StyleBg) :
     boxBackground false s =
-      if s.visibility = .hidden ∨ (s.colour = none ∧ s.images = 0) then none else some s.colour := by
+      if s.visibility ≠ .visible ∨ (s.colour = none ∧ s.images = 0) then none else some s.colour := by
   unfold boxBackground StyleBg.hidden
   cases hv : s.visibility <;> cases hc : s.colour <;> by_cases hi : s.images = 0 <;> simp [hv, hc, hi]
 
-/-- **Partial: CSS 2.1 11.2 ("an invisible box paints nothing") for `visibility` ≠ `collapse`.**  A box
-other than the page box has a `Background` iff it is *visible* and has a colour or an image.  The clause is
-false for `collapse` (`Witness.C17.collapse_keeps_background`, finding `collapse-paints-background`): the
-test of `layout_box_backgrounds` is `== 'hidden'` where every other reader tests `!= 'visible'`. -/
-theorem box_background_css_partial (s : StyleBg) (h : s.visibility ≠ .collapse) :
+/-- **CSS 2.1 11.2 ("an invisible box paints nothing"), full strength** (was `box_background_css_partial`
+with the hypothesis `visibility ≠ collapse`, dropped after repair af29a5d): a box other than the page box
+has a `Background` iff it is *visible* and has a colour or an image. -/
+theorem box_background_css (s : StyleBg) :
     (boxBackground false s).isSome = true ↔
       s.visibility = .visible ∧ (s.colour ≠ none ∨ s.images ≠ 0) := by
   rw [box_background_spec]
   cases hv : s.visibility <;> cases hc : s.colour <;> by_cases hi : s.images = 0 <;> simp_all
+
+/-- A box that is not visible paints no decoration at all: no background (layout gives it none), no
+border (`drawBorder` tests `visible`). -/
+theorem invisible_box_paints_no_decoration (a : Attrs) (s : StyleBg) (env : Env)
+    (hv : s.visibility ≠ .visible) (hvis : a.visible = false) (hb : a.bg = boxBackground false s) :
+    decoration a env = [] := by
+  have : boxBackground false s = none := by rw [box_background_spec]; simp [hv]
+  simp [decoration, drawBackground, drawBorder, hvis, hb, this]
 
 /-- The page box always has one ("Pages need a background for bleed box"). -/
 theorem page_background_some (s : StyleBg) : (boxBackground true s).isSome = true := by
@@ -180,7 +186,7 @@ example : boxBackground false ⟨.visible, some 8, 0⟩ = some (some 8) ∧
     boxBackground false ⟨.visible, none, 1⟩ = some none ∧ boxBackground true ⟨.visible, none, 0⟩ = some none := by
   decide
 
-example : (⟨.visible, some 8, 0⟩ : StyleBg).visibility ≠ .collapse := by decide
+example : boxBackground false ⟨.collapse, some 8, 1⟩ = none := by decide
 
 /-! ## The canvas background: every background is used exactly once -/
 
@@ -427,6 +433,55 @@ theorem propagated_root_background_not_painted (page : Attrs) (rootHtml : Bool) 
     paint_once_page_partial page (some c) _ hp2 hp6 hpm hk hs i]
   simp [Box.expBgL, expBg_clearBg]
 
+private theorem expBgL_clearAt : ∀ (l : List Box) (i : Nat) (b : Box), l[i]? = some b →
+    Box.expBgL (clearAt i l) =
+      Box.expBgL (l.take i) ++ (Box.expBg b.clearBg ++ Box.expBgL (l.drop (i + 1)))
+  | [], i, b, h => by simp at h
+  | x :: xs, 0, b, h => by
+    simp only [List.getElem?_cons_zero, Option.some.injEq] at h
+    subst h
+    simp [clearAt, Box.expBgL]
+  | x :: xs, i + 1, b, h => by
+    simp only [List.getElem?_cons_succ] at h
+    simp [clearAt, Box.expBgL, expBgL_clearAt xs i b h, List.append_assoc]
+
+private theorem expBg_withKids : ∀ (b : Box) (ks : List Box), (b.kids = [] → ks = []) →
+    Box.expBg (b.withKids ks) = if b.attrs.matrix = .singular then [] else bgOf b.attrs ++ Box.expBgL ks
+  | .leaf a, ks, h => by
+    have : ks = [] := h rfl
+    by_cases hm : a.matrix = .singular <;> simp [Box.withKids, Box.expBg, Box.attrs, this, Box.expBgL, hm]
+  | .node a kids, ks, _ => by
+    by_cases hm : a.matrix = .singular <;> simp [Box.withKids, Box.expBg, Box.attrs, hm]
+  | .ph b, ks, h => by rw [Box.withKids, Box.expBg, Box.attrs]; exact expBg_withKids b ks h
+
+/-- **The `<body>` background, once propagated to the canvas, is not painted at the body box** — the
+clause seeded change C17-5 broke (it kept `chosen_box.background`).  For an `html` root without background
+whose `i`-th child is the first `body` and has one: in the display list of `Page.paint` the background
+fills of any id `j` are those of the page box, of the root's other children, of body's *descendants* and
+of the margin boxes; the body box itself contributes none (with distinct ids: `cntBg body.id … = 0`), and
+nothing below a singular transform.  Grammar and hypotheses of `paint_once_page_partial`, on the page as
+`layout_backgrounds` leaves it. -/
+theorem propagated_body_background_not_painted (page : Attrs) (flags : List Bool)
+    (root : Box) (margins : List Box) (i : Nat) (body : Box) (c : Option Nat)
+    (hr : root.attrs.bg = none) (hf : firstBody flags = some i)
+    (hb : root.kids[i]? = some body) (hc : body.attrs.bg = some c)
+    (hp2 : page.kind.drawOwnDecoration = false) (hp6 : page.kind.drawInline = false)
+    (hpm : page.matrix ≠ .singular)
+    (hk : ∀ b ∈ root.withKids (clearAt i root.kids) :: margins, gRoot b)
+    (hs : singOKL (root.withKids (clearAt i root.kids) :: margins)) (j : Nat) :
+    cntBg j (drawDocument page true flags (root :: margins)) =
+      (bgOf page ++
+        (if root.attrs.matrix = .singular then [] else
+          Box.expBgL (root.kids.take i) ++
+            ((if body.attrs.matrix = .singular then [] else Box.expBgL body.kids) ++
+              Box.expBgL (root.kids.drop (i + 1)))) ++
+        Box.expBgL margins).count j := by
+  rw [draw_document_eq page true flags _ _ _ (canvas_from_body flags root margins i body c hr hf hb hc),
+    paint_once_page_partial page (some c) _ hp2 hp6 hpm hk hs j]
+  have hroot : bgOf root.attrs = [] := by simp [bgOf, hr]
+  simp only [Box.expBgL, expBg_withKids root _ (fun h => clearAt_nil_of_nil i _ h), hroot, List.nil_append,
+    expBgL_clearAt root.kids i body hb, expBg_clearBg, List.append_nil, List.append_assoc]
+
 /-- `<html style="background:…"><body><p>…`: the root's colour goes to the canvas. -/
 def exRootDoc : Box :=
   .node { plain 1 .BlockBox with isRoot := true } [
@@ -440,6 +495,20 @@ example : (layoutBackgrounds true [true] [exRootDoc]).toOption.map (fun r => (r.
 example : (∀ b ∈ [exRootDoc.clearBg], gRoot b) ∧ singOKL [exRootDoc.clearBg] := by
   simp [exRootDoc, Box.clearBg, gRoot, rootPainted, plain, listS, dispatchS, coreS, definesContext, lastIsLine,
     Node.attrs?, gInlineL, gInline, gFlowL, gFlow, leavesTree, bgOf, Delta.append, singOKL, singOK,
+    Kind.drawOwnDecoration, Kind.drawInline, Kind.drawReplaced, Kind.dispBlockLevel, Kind.dispCell,
+    Kind.drawLine, Kind.dilInlineOrLine, Kind.dilTextChild, Kind.dispStackingClass, Kind.drawTable]
+
+/-- The hypotheses of `propagated_body_background_not_painted` hold on `exDoc` (html without background, body
+with one, a paragraph with one): `firstBody [true] = some 0`, body is child 0, and the page as
+`layout_backgrounds` leaves it follows the grammar. -/
+example : firstBody [true] = some 0 ∧
+    (∀ b ∈ [(Box.node { plain 1 .BlockBox with bg := none, isRoot := true } []).withKids
+        (clearAt 0 [.node (plain 2 .BlockBox) [.node (plain 3 .BlockBox) []]])], gRoot b) ∧
+    singOKL [(Box.node { plain 1 .BlockBox with bg := none, isRoot := true } []).withKids
+        (clearAt 0 [.node (plain 2 .BlockBox) [.node (plain 3 .BlockBox) []]])] := by
+  refine ⟨rfl, ?_, ?_⟩ <;>
+  simp [singOKL, singOK, Box.withKids, clearAt, Box.clearBg, gRoot, rootPainted, plain, listS, dispatchS, coreS, definesContext,
+    lastIsLine, Node.attrs?, gInlineL, gInline, gFlowL, gFlow, leavesTree, bgOf, Delta.append,
     Kind.drawOwnDecoration, Kind.drawInline, Kind.drawReplaced, Kind.dispBlockLevel, Kind.dispCell,
     Kind.drawLine, Kind.dilInlineOrLine, Kind.dilTextChild, Kind.dispStackingClass, Kind.drawTable]
 
